@@ -250,6 +250,10 @@ func (conR *ConsensusReactor) Receive(chID byte, src *p2p.Peer, msgBytes []byte)
 		}
 		switch msg := msg.(type) {
 		case *ProposalMessage:
+			if !validPartSetTotal(msg.Proposal.BlockPartsHeader.Total) {
+				log.Warnw("Ignoring proposal with invalid block parts header", "src", src, "total", msg.Proposal.BlockPartsHeader.Total)
+				return
+			}
 			ps.SetHasProposal(msg.Proposal)
 			conR.conS.peerMsgQueue <- msgInfo{msg, src.Key}
 		case *ProposalPOLMessage:
